@@ -5,9 +5,13 @@ use crate::engine::{Ctx, Section};
 pub mod c01;
 pub mod c02;
 pub mod c03;
+pub mod c04;
 pub mod c05;
 pub mod c07;
 pub mod c09;
+pub mod c10;
+pub mod c13;
+pub mod c14;
 
 pub struct Prop {
     pub id: &'static str,
@@ -20,5 +24,5 @@ pub struct Prop {
 }
 
 pub fn all() -> Vec<Prop> {
-    vec![c01::prop(), c02::prop(), c03::prop(), c05::prop(), c07::prop(), c09::prop()]
+    vec![c01::prop(), c02::prop(), c03::prop(), c04::prop(), c05::prop(), c07::prop(), c09::prop(), c10::prop(), c13::prop(), c14::prop()]
 }
